@@ -376,6 +376,7 @@ type callInfo struct {
 	family  string // core | logger | sugar | grpc
 	field   bool   // the call carries the counting ObjectMarshaler field
 	noWrite bool   // Check only: the entry is never written, so nothing may be observed
+	probe   bool   // judged only when the reference says that no leaf accepts the entry
 	msg     string
 	lc      zapcore.Core // the core of the logger used (nil for the raw core front end)
 	ctx     func() map[string]any
@@ -413,6 +414,14 @@ func (t *rt) run(rp *reporter, ci *callInfo, l int8, f func()) {
 	enabled := false
 	if !ci.noWrite && (t.gate == nil || t.gate(l)) {
 		enabled = expect(t.model, l, t.cur, t.expLeaf, t.expHook)
+	}
+	if ci.probe && enabled {
+		for _, lf := range t.leaves { // not judged: drop what the enabled call (and its diagnostic) delivered
+			if !lf.io {
+				lf.logs.TakeAll()
+			}
+		}
+		return
 	}
 	for i, lf := range t.leaves {
 		got, bad := 0, ""
